@@ -13,8 +13,10 @@ import (
 	"fmt"
 	"hash/fnv"
 	"os"
+	"runtime"
 	"sort"
 	"strings"
+	"sync/atomic"
 	"testing"
 	"time"
 
@@ -52,12 +54,12 @@ type c37Spec struct {
 	BatchWait      bool // policy MaxWait > 0 (wait window for one adjacent peer)
 	CancelAccepted bool // CancelAcceptedOnClose + CancelAccepted hook
 	// mailbox
-	Shards   int
-	KeyMode  string // "same" | "diff" | "mixed"
-	MBBatch  int    // BatchMaxItems
-	MBWait   bool   // BatchMaxWait > 0
-	Bound    int
-	Horizon  int
+	Shards  int
+	KeyMode string // "same" | "diff" | "mixed"
+	MBBatch int    // BatchMaxItems
+	MBWait  bool   // BatchMaxWait > 0
+	Bound   int
+	Horizon int
 }
 
 func (s c37Spec) bounds() map[string]any {
@@ -81,18 +83,18 @@ func (s c37Spec) bounds() map[string]any {
 // ---------------------------------------------------------------- per-execution record
 
 type c37Task struct {
-	id       int
-	key      string
-	ctxKind  string // "bg" | "cancelled" | "timeout"
-	callSeq  int
-	retSeq   int
-	returned bool
-	err      error
-	ran      int
-	cancels  int
+	id        int
+	key       string
+	ctxKind   string // "bg" | "cancelled" | "timeout"
+	callSeq   int
+	retSeq    int
+	returned  bool
+	err       error
+	ran       int
+	cancels   int
 	cancelErr error
-	finSeq   int // logical time of the last handler / hook exit (0 = never)
-	shard    int // shard reported by the handler (-1 = unknown)
+	finSeq    int // logical time of the last handler / hook exit (0 = never)
+	shard     int // shard reported by the handler (-1 = unknown)
 }
 
 type c37Rec struct {
@@ -110,14 +112,14 @@ type c37Rec struct {
 	closeReturned bool
 	closeErr      error
 
-	active     map[int]int   // handler calls in flight per shard
-	overlaps   []int         // shards on which two handler calls overlapped
-	shardSeq   map[int][]int // per shard: items in processing order
-	maxBatch   int
-	handled    int // items whose handler call has finished
-	bogus      []int // item ids handed to a handler / hook that were never submitted
-	handlerEnds map[int][]int // per shard: logical end times of handler calls
-	shardMismatch string      // harness self-check: observed shard != fnv(key) % shards
+	active        map[int]int   // handler calls in flight per shard
+	overlaps      []int         // shards on which two handler calls overlapped
+	shardSeq      map[int][]int // per shard: items in processing order
+	maxBatch      int
+	handled       int           // items whose handler call has finished
+	bogus         []int         // item ids handed to a handler / hook that were never submitted
+	handlerEnds   map[int][]int // per shard: logical end times of handler calls
+	shardMismatch string        // harness self-check: observed shard != fnv(key) % shards
 }
 
 func (r *c37Rec) tick() int { r.seq++; return r.seq }
@@ -195,9 +197,9 @@ type c37Driver struct {
 }
 
 const (
-	c37BatchWait    = 50 * time.Microsecond
-	c37SubmitTO     = 5 * time.Microsecond
-	c37CloseTO      = 30 * time.Microsecond
+	c37BatchWait = 50 * time.Microsecond
+	c37SubmitTO  = 5 * time.Microsecond
+	c37CloseTO   = 30 * time.Microsecond
 )
 
 func c37Hash(key string) uint64 {
@@ -339,6 +341,7 @@ func c37Scenario(s c37Spec) vsched.Scenario {
 		Bounds: s.bounds(),
 		Note:   "2 producers x tasks + closer against the real (rewritten) " + s.Driver + "; oracle per complete execution",
 		Body: func(x *vsched.Exec) {
+			c37Progress.Add(1)
 			rec := &c37Rec{spec: s, tasks: map[int]*c37Task{}, active: map[int]int{}, shardSeq: map[int][]int{}, handlerEnds: map[int][]int{}}
 			x.Data["rec"] = rec
 			for p := 0; p < 2; p++ {
@@ -710,11 +713,52 @@ func c37Guards(r *ev.R, tot c37Totals, minExec int64, need ...string) {
 	}
 }
 
+// ---------------------------------------------------------------- stall watchdog (harness-side helper)
+
+// c37Progress counts started executions. If it stops advancing for c37StallLimit the
+// process is stuck inside ONE execution (an engine-level stall, e.g. a lost hand-off after a
+// starved teardown): instead of sitting until the driver's hard timeout, dump all goroutines,
+// record a harness error (exit 2, never a VIOLATION), write the partial result and exit.
+var c37Progress atomic.Int64
+
+const c37StallLimit = 240 * time.Second
+
+func c37Watchdog(r *ev.R) (stop func()) {
+	done := make(chan struct{})
+	go func() {
+		last, lastChange := c37Progress.Load(), time.Now()
+		tick := time.NewTicker(5 * time.Second)
+		defer tick.Stop()
+		for {
+			select {
+			case <-done:
+				return
+			case <-tick.C:
+			}
+			if cur := c37Progress.Load(); cur != last {
+				last, lastChange = cur, time.Now()
+				continue
+			}
+			if time.Since(lastChange) < c37StallLimit {
+				continue
+			}
+			buf := make([]byte, 1<<20)
+			buf = buf[:runtime.Stack(buf, true)]
+			fmt.Printf("c37 watchdog: no execution started for %s (after %d executions); goroutines:\n%s\n", c37StallLimit, last, buf)
+			r.HarnessError("watchdog: the controlled scheduler made no progress for %s after %d executions (engine stall, see log); partial result written", c37StallLimit, last)
+			r.Finish()
+			os.Exit(3)
+		}
+	}()
+	return func() { close(done) }
+}
+
 // ---------------------------------------------------------------- the check
 
 func TestVerifC37(t *testing.T) {
 	r := ev.Start(t, "C37")
 	defer r.Finish()
+	defer c37Watchdog(r)()
 	var specs []c37Spec
 	specs = append(specs, c37PoolSpecs(r)...)
 	specs = append(specs, c37BatchSpecs(r)...)
